@@ -548,6 +548,28 @@ struct Drv {
                     emit(Fact(op, K).val("a", a[j]).val("s", std::int64_t(s[j])).val("r", sg ? S(0) : r[j]).signal(sg), tn, int(j), form);
             }
         }
+        // periodic amount vectors (period 2 and 4): an emulation that tests "all lanes carry the same amount" on a wider
+        // field than one lane takes its uniform fast path for (p, q, p, q, ...)
+        if (N >= 4) {
+            const int amts[] = {0, 1, max_amt / 2, max_amt - 1, max_amt};
+            std::size_t base = 0;
+            for (int p : amts)
+                for (int q : amts)
+                    for (int period = 2; period <= 4; period += 2) {
+                        if (p == q) continue;
+                        A a, s, r{};
+                        for (unsigned j = 0; j < N; ++j) {
+                            a[j] = vals[(base + j) % n];
+                            s[j] = S((j % unsigned(period)) < unsigned(period) / 2 ? p : q);
+                        }
+                        base += N;
+                        opaque(a);
+                        opaque(s);
+                        int sg = guarded([&] { r = avel::to_array(f(V(a), V(s))); });
+                        for (unsigned j = 0; j < N; ++j)
+                            emit(Fact(op, K).val("a", a[j]).val("s", std::int64_t(s[j])).val("r", sg ? S(0) : r[j]).signal(sg), tn, int(j), form);
+                    }
+        }
     }
 
     template<unsigned Sh, int Dummy = 0>
